@@ -135,7 +135,7 @@ def gen_world(rng, tier, *, min_species=2, max_species=5, allow_small_refs=True,
             off = [0.0, 0.0, off[2]]          # only v3(y)
         box = d + [0.0, 0.0, off[0], 0.0, off[1], off[2]]
     title = rng.choice(["Mapped world", "t= 100.000 step= 5000", "  two  spaces ", "System; with [brackets] and #hash",
-                        "x" * 60, "l\u00edquido i\u00f3nico a 300 K (Jos\u00e9)", "\u03c3 = 0.34 nm, 25 \u00b0C"]) + " %d" % rng.randrange(1000)
+                        "x" * 60, "l\u00edquido i\u00f3nico a 300 K (Jos\u00e9)", "\u03c3 = 0.34 nm, 25 \u00b0C", 'mixture {"T": 300, "x": 0.5} {figures} {0}', "100% {} %s %d"]) + " %d" % rng.randrange(1000)
     if rng.random() < 0.15:
         title += rng.choice(["  ", " ", "\t", " " * 20])      # a title padded with trailing blanks
     # end coordinates: placed around the first instance of the species (roughly overlapped), 3 decimals
